@@ -228,3 +228,22 @@ def checks(tier):
                bounds="base/target of 2..4 symbolic bytes, every 3-opcode valid diff script",
                outside="longer scripts", tiers=t),
     ]
+
+
+# ---------------------------------------------------------------------------------------------
+# (d) at the pack-reading entry points: deltas whose result is the empty string are ordinary deltas
+_b03d = checks
+
+
+def checks(tier):
+    from vf.props.C04 import h_delta_graph
+    q = ("quick", "thorough")
+    return _b03d(tier) + [
+        KCheck("C03d.empty_target_in_pack", h_delta_graph,
+               parts=[{"n": n, "installed": ins, "empty_last": True} for n in (1, 2) for ins in (True, False)],
+               encoded=["dulwich.pack.DeltaChainIterator._resolve_object", "dulwich.pack.Pack.resolve_object", "dulwich.pack.apply_delta",
+                        "dulwich.object_store.DiskObjectStore.add_pack"],
+               bounds="packs of a blob and 1-2 deltas (kind OFS/REF and base symbolic, as C04e.delta_graph) whose last delta "
+                      "produces the empty blob: lookup in an installed pack and ingestion through add_pack return / accept it",
+               outside="other object types with empty results (not valid git objects)", tiers=q),
+    ]
